@@ -127,7 +127,7 @@ def pwa(F, ob, cfg):
     k = F.choice("tri", list(range(tris)))
     u = F.real("u", 0, 1)
     v = F.real("v", 0, 1)
-    F.assume(F.and_(u >= 0.01, v >= 0.01, u + v <= 0.99))
+    F.assume(F.and_(u > 0, v > 0, u + v < 1))
     tri = trilist[k]
     q = src[tri[0]] + (src[tri[1]] - src[tri[0]]) * u + (src[tri[2]] - src[tri[0]]) * v
     q = np.array([list(q)], dtype=object if F.sym else float)
